@@ -24,7 +24,15 @@ pub fn meta() -> Meta {
 }
 
 fn run_limited(case: &Case, prog: &Program, m: u32) -> (ExecOutcome, Vec<HostEvent>) {
-    let opts = match ExecutionOptions::new(Some(m), 64, true) {
+    // the expected-cycles hint must not influence the limit: rotate through hints <= m, including
+    // ones whose power-of-two rounding exceeds m
+    let e = match m % 4 {
+        0 => 64,
+        1 => m.min(1 << 20),
+        2 => (m / 2 + 1).min(1 << 20),
+        _ => (m - m / 8).min(1 << 20),
+    };
+    let opts = match ExecutionOptions::new(Some(m), e, true) {
         Ok(o) => o,
         Err(e) => panic!("options for m={m} refused: {e:?}"),
     };
